@@ -44,5 +44,22 @@ InWindow(L, min, max) == L >= 1 /\ (min = 0 \/ L >= min) /\ (max = 0 \/ L <= max
 (* r and n is a real directory (true by construction: only dirs are parents).*)
 Listed(w, r, min, max) == { n \in NodeIds(w) : Below(w, r, n) /\ InWindow(LevelBelow(w, r, n), min, max) }
 
+(* Following links (C18).  The directory a node stands for when it is entered: itself, or what a link (through any chain  *)
+(* of links) resolves to; -1 = none (file, dangling link, link loop).  Link targets: a node id, 0 = the top directory,     *)
+(* negative = nothing inside the world.                                                                                  *)
+RECURSIVE Resolve(_, _, _)
+Resolve(w, n, fuel) ==
+  IF n = 0 THEN 0
+  ELSE IF n < 0 \/ fuel = 0 THEN -1
+  ELSE IF w.nodes[n].kind = "dir" THEN n
+  ELSE IF w.nodes[n].kind = "symlink" THEN Resolve(w, w.nodes[n].target, fuel - 1)
+  ELSE -1
+RECURSIVE Closure(_, _)
+Closure(w, S) == LET T == S \cup ({ Resolve(w, c, 8) : c \in UNION { ChildrenOf(w, d) : d \in S } } \ {-1})
+                 IN IF T = S THEN S ELSE Closure(w, T)
+(* the real directories reachable from root through directories and links, and the entries they contain *)
+Reachable(w, root) == Closure(w, {root})
+Behind(w, root) == UNION { ChildrenOf(w, d) : d \in Reachable(w, root) }
+
 Disjoint(w, r1, r2) == r1 # r2 /\ ~Below(w, r1, r2) /\ ~Below(w, r2, r1) /\ r1 # 0 /\ r2 # 0
 =============================================================================
